@@ -217,7 +217,13 @@ def guarded_run(prop, case):
     # the limit applies to ONE simulated execution: cases of the fault enumerations run thousands
     simnet.ON_RUN = lambda: signal.alarm(CASE_WALL_LIMIT)
     try:
-        return prop.run_case(case)
+        res = prop.run_case(case)
+        if simnet.BUG_LOG:
+            # an error inside the simulation, whatever the client under test made of it
+            raise boot.HarnessError("simulation error: %s (case %s)" % (simnet.BUG_LOG[0], canon(case)[:400]))
+        return res
+    except simnet.HarnessBug as bug:
+        raise boot.HarnessError("simulation error: %s" % bug)
     except WallClockHang as hang:
         return failed("no_progress", str(hang))
     finally:
